@@ -11,6 +11,19 @@ use serde_json::{json, Value};
 
 pub const FIXTURES: &str = "/repo/sdk/tests/fixtures";
 
+/// Root of the repository under test (`/repo`; `VERIF_REPO_DIR` overrides it for scratch-copy sensitivity runs).
+pub fn repo_dir() -> String {
+    std::env::var("VERIF_REPO_DIR").unwrap_or_else(|_| "/repo".to_string())
+}
+
+/// Cargo target dir for binaries built from the repository itself (c2patool): per repository root.
+pub fn repo_target_dir() -> String {
+    match std::env::var("VERIF_REPO_DIR") {
+        Ok(d) => format!("{d}/../c2patool-target"),
+        Err(_) => "/verif/target/c2patool".to_string(),
+    }
+}
+
 pub fn fixture(name: &str) -> Vec<u8> {
     std::fs::read(format!("{FIXTURES}/{name}")).unwrap_or_else(|e| panic!("fixture {name}: {e}"))
 }
